@@ -2297,3 +2297,88 @@ func init() {
 	reg("C17", ruleConversionOnlyAfterSuccessfulBlockRead)
 	reg("C16", ruleConversionOnlyAfterSuccessfulBlockRead)
 }
+
+// ---------------------------------------------------------------------------------------------------------------
+// T12: a generation that validated its input runs the generators: in the function of internal/cmd that calls the
+// back ends, every `return` that stands in front of the last Generate call is the return of an error.
+// ---------------------------------------------------------------------------------------------------------------
+func ruleGenerationRunsTheGenerators(c *core.Ctx) {
+	const rule = "T12"
+	c.Rule(rule, "internal/cmd: in the function that calls the Generate functions of the back ends, every return in front of the last of those calls stands under a test of an error (`err != nil`): no digest, timestamp or cache lets a regeneration skip the generators", 3)
+	p := c.Pkg("internal/cmd")
+	if p == nil {
+		c.Undecided(rule, "anchor/internal/cmd", 0, "package not found")
+		return
+	}
+	info := p.TypesInfo
+	n := 0
+	for _, d := range c.AllDecls() {
+		if c.DeclPkg(d) != p || d.Body == nil || c.IsTestFile(d.Pos()) {
+			continue
+		}
+		var last token.Pos
+		backends := map[string]bool{}
+		ast.Inspect(d.Body, func(m ast.Node) bool {
+			if ce, ok := m.(*ast.CallExpr); ok {
+				if f := core.Callee(info, ce); f != nil && f.Pkg() != nil && f.Name() == "Generate" && core.InModule(f) && f.Pkg() != p.Types {
+					backends[f.Pkg().Path()] = true
+					if ce.Pos() > last {
+						last = ce.Pos()
+					}
+				}
+			}
+			return true
+		})
+		if len(backends) < 2 {
+			continue
+		}
+		// returns in front of the last Generate call, with the conditions of the enclosing ifs
+		var visit func(list []ast.Stmt, conds []string)
+		visit = func(list []ast.Stmt, conds []string) {
+			for _, s := range list {
+				switch x := s.(type) {
+				case *ast.ReturnStmt:
+					if x.Pos() > last {
+						continue
+					}
+					n++
+					underErr := false
+					for _, cnd := range conds {
+						if strings.Contains(cnd, "err != nil") || strings.Contains(cnd, "Err != nil") {
+							underErr = true
+						}
+					}
+					c.Check(underErr, rule, fmt.Sprintf("%s/return#%d", c.FuncName(d), n), x.Pos(), "returns an error",
+						"a path returns in front of the generators without an error: the regeneration reports success although nothing was generated, so after an edit the digest / cache does not see (a predecessor version, an option of an import) the files on disk stay different from a one-shot `yardl generate`")
+				case *ast.IfStmt:
+					cnd := types.ExprString(x.Cond)
+					visit(x.Body.List, append(append([]string{}, conds...), cnd))
+					switch e := x.Else.(type) {
+					case *ast.BlockStmt:
+						visit(e.List, append(append([]string{}, conds...), "!("+cnd+")"))
+					case *ast.IfStmt:
+						visit([]ast.Stmt{e}, append(append([]string{}, conds...), "!("+cnd+")"))
+					}
+				case *ast.BlockStmt:
+					visit(x.List, conds)
+				case *ast.ForStmt:
+					visit(x.Body.List, conds)
+				case *ast.RangeStmt:
+					visit(x.Body.List, conds)
+				case *ast.SwitchStmt:
+					for _, cl := range x.Body.List {
+						visit(cl.(*ast.CaseClause).Body, append(append([]string{}, conds...), "case"))
+					}
+				}
+			}
+		}
+		visit(d.Body.List, nil)
+	}
+	if n == 0 {
+		c.Undecided(rule, "anchor/function that calls the back ends", 0, "no function of internal/cmd calls the Generate functions of two or more back ends")
+	}
+}
+
+func init() {
+	reg("C20", ruleGenerationRunsTheGenerators)
+}
